@@ -83,6 +83,7 @@ type Expect struct {
 	MFail   [][2]string `json:"mfail,omitempty"`  // failing matchers (name, path)
 	VID     string     `json:"vid,omitempty"`     // value identity when the text is only known to go-snaps
 	Inj     bool       `json:"inj,omitempty"`     // VID is injective within its family
+	Doc     string     `json:"doc,omitempty"`     // JSON APIs: the document that must be stored (any presentation)
 	Text    *string    `json:"text,omitempty"`    // expected formatted text when known independently
 }
 
